@@ -109,7 +109,7 @@ func (fr *frame) externalModel(name string, cc *ssa.CallCommon, args []T, st *St
 		return []T{c.fresh("errstr", "Str")}, true
 	}
 	callee := cc.StaticCallee()
-	if callee != nil && !InRepo(callee) || cc.IsInvoke() && !strings.HasPrefix(cc.Method.Pkg().Path(), ModPath) {
+	if callee != nil && !InRepo(callee) || cc.IsInvoke() && !methodInRepo(cc.Method) {
 		if _, has := c.W.Contracts[name]; has {
 			return nil, false
 		}
@@ -161,6 +161,7 @@ func (c *Ctx) traceCall(name string, st *State) {
 	if !c.tracked(name) {
 		return
 	}
+	c.trackedByKey[sanitize(name)] = name
 	c.R.Heap("Clock", "Int")
 	c.R.Heap(traceKey(name), "Int")
 	c.R.Heap("Last_"+sanitize(name), "Int")
@@ -176,4 +177,152 @@ func (c *Ctx) tracked(name string) bool {
 		return false
 	}
 	return ct.Trace[name]
+}
+
+// mayReach: can the call reach (transitively, over static callees and
+// name-resolved interface invokes inside the repository) a function whose
+// short name is target? Conservative: unknown dynamic calls reach everything.
+func (c *Ctx) mayReach(cc *ssa.CallCommon, target string) bool {
+	if cc.IsInvoke() {
+		// the invoke itself is counted by traceCall: only what the
+		// implementations do matters (marker seen[nil])
+		return c.invokeMayReach(cc.Method, calleeName(cc), target, map[*ssa.Function]bool{nil: true})
+	}
+	callee := cc.StaticCallee()
+	if callee == nil {
+		if d, ok := c.closures[T{}.S]; ok && d != nil {
+			callee = d.fn
+		} else {
+			return true
+		}
+	}
+	if ShortName(callee) == target {
+		// the call itself is counted by traceCall; only recursion re-enters
+		return c.bodyMayReach(callee, target)
+	}
+	return c.fnMayReach(callee, target, map[*ssa.Function]bool{})
+}
+
+func (c *Ctx) bodyMayReach(fn *ssa.Function, target string) bool {
+	seen := map[*ssa.Function]bool{}
+	for _, b := range fn.Blocks {
+		for _, in := range b.Instrs {
+			if call, ok := in.(ssa.CallInstruction); ok {
+				cc := call.Common()
+				if _, isB := cc.Value.(*ssa.Builtin); isB {
+					continue
+				}
+				if cc.IsInvoke() {
+					if c.invokeMayReach(cc.Method, calleeName(cc), target, seen) {
+						return true
+					}
+				} else if cal := cc.StaticCallee(); cal != nil {
+					if c.fnMayReach(cal, target, seen) {
+						return true
+					}
+				}
+			}
+		}
+	}
+	return false
+}
+
+func methodOf(short string) string {
+	if i := strings.LastIndex(short, "."); i >= 0 {
+		return short[i+1:]
+	}
+	return short
+}
+
+func sameSig(a, b *types.Signature) bool {
+	return types.Identical(types.NewSignatureType(nil, nil, nil, a.Params(), a.Results(), a.Variadic()),
+		types.NewSignatureType(nil, nil, nil, b.Params(), b.Results(), b.Variadic()))
+}
+
+func (c *Ctx) invokeMayReach(m *types.Func, name, target string, seen map[*ssa.Function]bool) bool {
+	method := m.Name()
+	if name == target {
+		if _, top := seen[nil]; !top {
+			return true
+		}
+	}
+	msig := m.Type().(*types.Signature)
+	// every in-repo method with that name and signature may be the implementation
+	for n, f := range c.W.Funcs {
+		if InRepo(f) && f.Signature.Recv() != nil && methodOf(n) == method && sameSig(f.Signature, msig) {
+			delete(seen, nil)
+			if c.fnMayReach(f, target, seen) {
+				return true
+			}
+		}
+	}
+	return false
+}
+
+func (c *Ctx) fnMayReach(fn *ssa.Function, target string, seen map[*ssa.Function]bool) bool {
+	if fn == nil {
+		return true
+	}
+	if ShortName(fn) == target {
+		return true
+	}
+	if seen[fn] || !InRepo(fn) {
+		return false
+	}
+	seen[fn] = true
+	key := ShortName(fn) + "->" + target
+	if v, ok := c.mayCallMemo[key]; ok {
+		return v
+	}
+	res := false
+	for _, b := range fn.Blocks {
+		for _, in := range b.Instrs {
+			var cc *ssa.CallCommon
+			switch x := in.(type) {
+			case *ssa.Call:
+				cc = &x.Call
+			case *ssa.Defer:
+				cc = &x.Call
+			case *ssa.Go:
+				cc = &x.Call
+			case *ssa.MakeClosure:
+				if c.fnMayReach(x.Fn.(*ssa.Function), target, seen) {
+					res = true
+				}
+				continue
+			default:
+				continue
+			}
+			if _, isB := cc.Value.(*ssa.Builtin); isB {
+				continue
+			}
+			if cc.IsInvoke() {
+				if methodInRepo(cc.Method) || methodOf(target) == cc.Method.Name() {
+					if c.invokeMayReach(cc.Method, calleeName(cc), target, seen) {
+						res = true
+					}
+				}
+				continue
+			}
+			if callee := cc.StaticCallee(); callee != nil {
+				if c.fnMayReach(callee, target, seen) {
+					res = true
+				}
+				continue
+			}
+			// dynamic call of a function value: in-repo function values are
+			// closures, whose bodies are scanned where they are created
+			// (MakeClosure above); callbacks supplied by library users are
+			// assumed not to re-enter the tracked functions (listed assumption).
+		}
+		if res {
+			break
+		}
+	}
+	c.mayCallMemo[key] = res
+	return res
+}
+
+func methodInRepo(m *types.Func) bool {
+	return m != nil && m.Pkg() != nil && strings.HasPrefix(m.Pkg().Path(), ModPath)
 }
